@@ -21,6 +21,7 @@ import (
 type c10Call struct {
 	NoInter bool `json:"no_inter,omitempty"` // this verification is not handed the caller's intermediate certificates
 	Params map[string]string `json:"params"`
+	ForeignKeys bool `json:"foreign_keys,omitempty"` // this verification is handed layout keys that carry the right key ids but somebody else's public key
 }
 
 type c10Case struct {
@@ -176,6 +177,19 @@ func c10Run(c c10Case, r *hx.Rec) error {
 		if len(params) > 0 {
 			nonEmptyParams = true
 		}
+		callKeys := keys
+		if call.ForeignKeys {
+			callKeys = c10ForeignKeys(keys)
+			r.Label("call-with-foreign-key-material")
+			out := b.VerifyWith(md, callKeys, params)
+			if out.Panic != nil {
+				return fmt.Errorf("call %d: verification panicked: %v", i, out.Panic)
+			}
+			if !out.Rejected() {
+				return fmt.Errorf("call %d: the layout keys handed over carry the right key ids but another party's public key (after %d calls with the genuine keys in this process): accepted", i, i)
+			}
+			continue
+		}
 		before := c10Snapshot(md, keys, params, pems)
 		fresh := b.VerifyWith(nil, nil, copyParams(call.Params))
 		if fresh.Panic != nil {
@@ -229,6 +243,23 @@ func c10Run(c c10Case, r *hx.Rec) error {
 		r.Nontrivial()
 	}
 	return nil
+}
+
+// c10ForeignKeys returns the key map with every public key replaced by that of another pool key of
+// the same type (key ids, types and schemes stay).
+func c10ForeignKeys(keys map[string]intoto.Key) map[string]intoto.Key {
+	out := map[string]intoto.Key{}
+	for id, k := range keys {
+		for _, n := range hx.CheapPoolNames() {
+			o := hx.PoolKey(n)
+			if o.Type == k.KeyType && o.Scheme == k.Scheme && o.KeyID != k.KeyID {
+				k.KeyVal.Public = o.PublicString()
+				break
+			}
+		}
+		out[id] = k
+	}
+	return out
 }
 
 // c10Isolated verifies the materialised world with the given parameters in a process of its own.
@@ -345,6 +376,14 @@ func c10GenChain(t *rapid.T) hx.World {
 			lay.Inspect[0].ExpMat = append([][]string{{"ALLOW", "unused/./too"}}, lay.Inspect[0].ExpMat...)
 		}
 	}
+	if w.Layout.Wrapper == "legacy" && len(w.Layout.Sigs) > 0 && rapid.IntRange(0, 2).Draw(t, "stalesig") == 0 {
+		// the layout was revised and signed again: the owner's outdated signature still stands in front of
+		// the current one (the objects the caller holds keep their signature entries as they are)
+		first := w.Layout.Sigs[0]
+		stale := first
+		stale.Forge = "other-content"
+		w.Layout.Sigs = append([]hx.WSig{stale}, w.Layout.Sigs...)
+	}
 	// functionaries agree on materials and products, but each has its own by-products and command line
 	for i := range w.Links {
 		l := *w.Links[i].Meta.Link
@@ -385,6 +424,9 @@ func c10Gen(t *rapid.T) c10Case {
 		n := rapid.IntRange(1, 4).Draw(t, "ncalls")
 		for i := 0; i < n; i++ {
 			c.Calls = append(c.Calls, c10Call{Params: dicts[rapid.IntRange(0, len(dicts)-1).Draw(t, "dict")]})
+			if i > 0 && rapid.IntRange(0, 4).Draw(t, "foreignkeys") == 0 {
+				c.Calls[i].ForeignKeys = true
+			}
 		}
 	case "nested":
 		// sublayouts offered by several functionaries: the recursion iterates over maps, too
